@@ -700,6 +700,27 @@ struct FnEmit
                     return;
                 }
             }
+        if (Callee && Callee->isDeclaration() && (Callee->getName() == "_Znwm" || Callee->getName() == "_Znam"))
+            if (auto* M = dyn_cast<BinaryOperator>(CB.getArgOperand(0)); M && M->getOpcode() == Instruction::Mul)
+                if (auto* K = dyn_cast<ConstantInt>(M->getOperand(1)))
+                {
+                    // typed ARRAY allocation: operator new(n * sizeof(T)) whose result is used as T* (vector growth)
+                    Type* T = nullptr;
+                    bool ok = true;
+                    for (User* U : CB.users())
+                        if (auto* BC = dyn_cast<BitCastInst>(U))
+                        {
+                            Type* E = BC->getType()->getPointerElementType();
+                            if (!E->isStructTy()) continue;
+                            if (T && T != E) ok = false;
+                            T = E;
+                        }
+                    if (ok && T && T->isSized() && C.DL.getTypeAllocSize(T) == K->getZExtValue())
+                    {
+                        os << "  " << lhs << "(u8*)VERIF_NEW_ARRAY(" << C.ty(T) << ", " << val(M->getOperand(0)) << ");\n";
+                        return;
+                    }
+                }
         if (Callee && C.isExt(Callee))
         {
             C.usedExternals.insert(Callee);
